@@ -15,8 +15,9 @@ CONSTANTS
     REKEEP = FALSE
     MAXSAVES = 2
     ImportCleans = TRUE
-    UnmarshalMode = "merge"
+    UnmarshalMode = "replace"
     LoadSkipsBad = TRUE
 INVARIANT ExportLaw
 INVARIANT ImportLaw
 INVARIANT SerialLawFresh
+INVARIANT SerialLawAny
